@@ -20,7 +20,13 @@ import (
 	"github.com/EdgeCast/vflow/zzverif/sched"
 )
 
-var tmpDir = func() string {
+var tmpDirOnce string
+
+// tmpDir is created lazily (under VERIF_TMP, which the orchestrator removes after the run)
+func tmpDirGet() string {
+	if tmpDirOnce != "" {
+		return tmpDirOnce
+	}
 	d := os.Getenv("VERIF_TMP")
 	if d == "" {
 		d = os.TempDir()
@@ -29,8 +35,9 @@ var tmpDir = func() string {
 	if err != nil {
 		panic(err)
 	}
+	tmpDirOnce = p
 	return p
-}()
+}
 
 // template versions: same record length (8), different field lists
 func versions() [][]ref.Field {
@@ -189,7 +196,7 @@ func rpcProg(k, n int) prog {
 
 func dmpProg(file string) prog {
 	return prog{"dump+load", func(e *env, c *flowh.Caches, tid int, rec func(opRec)) {
-		p := filepath.Join(tmpDir, file)
+		p := filepath.Join(tmpDirGet(), file)
 		s := sched.Step()
 		var err error
 		if e.v9 {
